@@ -138,6 +138,9 @@ def run(ctx):
         for n in list(S.bodies.values()) + list(S.leaves.values()):
             if n.get('dpath', '').startswith('core::any::'):
                 rep.ob('R18.3', 'no TypeId/Any reachable', False, lpure.chain(S, n['id']), '', sn)
+    # R18.6 the direct key's operations (what 'the same key held directly' computes) are the reviewed group operations
+    for base in ctx.suite_names:
+        an.group_dh_reviewed(ctx, rep, 'R18.6', base)
     ns = len(ctx.suite_names)
     rep.floor('R18.1', 'Ok paths with exactly the two interface calls', n_paths, 8 * ns)
     rep.floor('R18.4', 'transparent twins', n_equal, 8 * ns)
